@@ -156,6 +156,8 @@ type c04World struct {
 	finish func()
 }
 
+var c04NotFollowed int
+
 func c04Enc() zapcore.Encoder {
 	return zapcore.NewJSONEncoder(zapcore.EncoderConfig{MessageKey: "m", LevelKey: "l", EncodeLevel: zapcore.LowercaseLevelEncoder})
 }
@@ -327,8 +329,12 @@ func checkC04(c *Ctx) {
 			if c.Saturated() {
 				break
 			}
+			if c04NotFollowed >= 20 {
+				break // the code no longer stops where the gates are: the free-running stages still judge it
+			}
 			key, what, inc := c04GateReplay(seen[k], kind)
 			if inc != "" {
+				c04NotFollowed++
 				c.Add("schedules_not_followed", 1)
 				c.Note("schedule %v on %s not followed: %s", seen[k], kind, inc)
 				continue
